@@ -4,7 +4,7 @@
    Not proved (trusted mathematics): that every canonical star graph of type B1/B2/B3 generates
    sp/so/su of the stated size, and that equal invariants imply isomorphism (arXiv:2408.00081).
    The implementation's answer is compared with the invariants of the verified closure per input. *)
-From PauLie Require Import Pauli Sym ClT ClSym PathT ClosureN ClosureT Star StarT.
+From PauLie Require Import Pauli Sym ClT ClSym PathT StarClosureT ClosureN ClosureT Star StarT.
 
 Theorem C01_closure_oracle_exact : forall n G L, closure_strs n G = Some L ->
   forall p, length p = n -> (In p L <-> Cl P mul anti (fun a => In a (map enc G)) (enc p)).
@@ -39,3 +39,13 @@ Theorem C01_path_closure : forall (m : nat) (g : nat -> P),
   forall p, ClS (PathT.G P m g) p <-> IsSeg P mul m g p.
 Proof. exact s_path_closure. Qed.
 Print Assumptions C01_path_closure.
+
+(* the canonical graph "k single legs", for EVERY k: the closure of a centre c with pairwise commuting legs l_1..l_k, each
+   anticommuting with c, is exactly { l_U : |U| odd } union { c.l_S : S any }.  With independent legs that is
+   2^(k-1) + 2^k = 3 * 2^(k-1) strings, the dimension of the 2^(k-1) copies of so(3) which the repaired census reports
+   (C01_star_of_single_legs); the pinned snapshot reported k'*so(2) for k >= 3. *)
+Theorem C01_star_closure : forall (c : P) (ls : list P),
+  (forall a b, In a ls -> In b ls -> anti a b = false) -> (forall a, In a ls -> anti c a = true) ->
+  forall p, ClS (StarClosureT.G P c ls) p <-> InStar P mul pid c ls p.
+Proof. exact s_star_closure. Qed.
+Print Assumptions C01_star_closure.
